@@ -1155,6 +1155,125 @@ def c13_writes(seed, tier):
     return R.as_dict()
 
 
+# ------------------------------------------------------------------------------ C07: the wire of a whole clone
+
+def c07_wire(seed, tier):
+    """Every range request of a whole CLI clone over HTTP, as received by a scripted server, in order: one for
+    the pre-header, one for the rest of the header, then one per maximal run of adjacent MISSING chunks
+    (theorem clone_over_http_requests_runs_of_missing_chunks).  Fixed-size blocks, so that which chunks a seed
+    or the prior output holds is known without a chunker (independent oracle); the same scenario is replayed
+    by the model through its remote reader (`clone-rf` with flag h)."""
+    from . import httpd, pyfmt
+    rng = random.Random(seed * 1000003 + 7)
+    R = Result()
+    W = Work("c07w")
+    try:
+        n = 150 if tier == "thorough" else 20
+        for i in range(n):
+            bs = rng.choice([64, 100, 256, 500])
+            nb = rng.randrange(3, 13)
+            compressible = i % 3 == 2
+            blocks = []
+            for k in range(nb):
+                if compressible and rng.random() < 0.7:
+                    unit = rng.randbytes(rng.choice([1, 2, 5]))
+                    b = bytes([k]) + (unit * bs)[:bs - 1]
+                else:
+                    b = bytes([k]) + rng.randbytes(bs - 1)
+                blocks.append(b)
+            if i % 4 == 1:
+                blocks.append(bytes([nb]) + rng.randbytes(rng.randrange(0, bs - 1)))      # a short last chunk
+            src = b"".join(blocks)
+            compression = "brotli" if compressible else "none"
+            arch, apath, cfg_tok, hl = make_archive(W, rng, src, cfg=(["--fixed-size", str(bs)], "F:%d" % bs),
+                                                    compression=compression, hash_len=rng.choice([8, 64]))
+            a = pyfmt.parse_archive(arch)
+            descs = a["dictionary"]["chunk_descriptors"]
+            cdo, hs = a["chunk_data_offset"], a["header_size"]
+            if len(descs) != len(blocks):
+                raise core.Failure("scenario construction: %d descriptors for %d distinct blocks" % (len(descs), len(blocks)))
+            shape = ["some", "some", "some", "none", "all", "alternate"][i % 6]
+            if shape == "none":
+                present = []
+            elif shape == "all":
+                present = list(range(len(blocks)))
+            elif shape == "alternate":
+                present = list(range(1, len(blocks), 2))
+            else:
+                present = [k for k in range(len(blocks)) if rng.random() < 0.5]
+            short = [k for k in present if len(blocks[k]) < bs]
+            full = [k for k in present if len(blocks[k]) == bs]
+            rng.shuffle(full)
+            where = ["seed", "in-place", "both", "stdin"][i % 4]
+            cutk = rng.randrange(0, len(full) + 1) if where == "both" else (len(full) if where == "in-place" else 0)
+            prior_ids, seed_ids = full[:cutk], full[cutk:]
+            junk = lambda: bytes([255]) + rng.randbytes(bs - 1)
+            prior = b"".join(blocks[k] if rng.random() < 0.85 else blocks[k] + junk() for k in prior_ids)
+            seed_data = b"".join(blocks[k] if rng.random() < 0.85 else junk() + blocks[k] for k in seed_ids)
+            for k in short:                                   # a short chunk is found only at the end of a stream
+                if where == "in-place":
+                    prior += blocks[k]
+                else:
+                    seed_data += blocks[k]
+            in_place = where in ("in-place", "both")
+            outp = W.fresh(".out")
+            if in_place:
+                with open(outp, "wb") as f:
+                    f.write(prior)
+            else:
+                prior = b""
+            seeds = [seed_data] if seed_data and where != "stdin" else []
+            stdin_seed = seed_data if seed_data and where == "stdin" else None
+            srv = httpd.Server(arch)
+            cls, rc, so, se = clone_cli(W, srv.url(), outp, seeds=[W.write(x, ".seed") for x in seeds], seed_output=in_place,
+                                        stdin_seed=stdin_seed)
+            raw_log = list(srv.log)
+            srv.close()
+            wire = [r for r in raw_log if r is not None]
+            got = read_file(outp)
+            req = "cli-clone-http bs=%d blocks=%d present=%r where=%s %s hl=%d src=%s" % (
+                bs, len(blocks), sorted(present), where, compression, hl, digest(src))
+            R.stat("clones")
+            R.stat("present_" + shape)
+            R.stat("held_by_" + where)
+            if cls != "ok":
+                R.fail("clone-over-http-%s" % cls, req + " :: " + se.decode(errors="replace")[-200:].replace("\n", "|"))
+                continue
+            if got != src:
+                R.fail("clone-over-http-output-differs-from-source", req)
+            if len(wire) != len(raw_log):
+                R.fail("request-without-a-range", req)
+            # independent oracle: maximal runs of adjacent missing descriptors, in descriptor order
+            missing = [(cdo + cd["archive_offset"], cd["archive_size"]) for k, cd in enumerate(descs) if k not in present]
+            runs = []
+            for o, k in missing:
+                if runs and runs[-1][0] + runs[-1][1] == o:
+                    runs[-1] = (runs[-1][0], runs[-1][1] + k)
+                else:
+                    runs.append((o, k))
+            expect = [(0, 14), (14, hs - 14)] + runs
+            R.stat("chunk_requests", len(runs))
+            R.stat("missing_chunks", len(missing))
+            if wire != expect:
+                R.fail("wire-is-not-header-then-one-request-per-run-of-adjacent-missing-chunks",
+                       req + " :: wire=%r expected=%r" % (wire[:8], expect[:8]))
+            all_seeds = [x for x in [stdin_seed] + seeds if x]
+            if len(arch) + len(prior) + sum(len(x) for x in all_seeds) <= 14000:
+                table = []
+                for cd, b in zip(descs, blocks):
+                    st = arch[cdo + cd["archive_offset"]: cdo + cd["archive_offset"] + cd["archive_size"]]
+                    if len(st) != len(b):
+                        table.append("%s:%s" % (hx(st), hx(b)))
+                mreq = "clone-rf %sh - %s %s %s %s" % ("s" if in_place else "", hx(arch), hx(prior),
+                                                       ",".join(hx(x) for x in all_seeds) or "-", ",".join(table) or "-")
+                R.case(mreq, None)
+                R.cases[-1] = (mreq, "result=ok out=%s fetch=%s wire=%s" % (
+                    digest(got), ",".join("%d:%d" % r for r in missing) or "-", ",".join("%d:%d" % r for r in wire)))
+    finally:
+        W.close()
+    return R.as_dict()
+
+
 # ------------------------------------------------------------------------------ C02 / C06: seeds and fetches
 
 def _strace_reads(log, path):
@@ -1252,13 +1371,15 @@ def c02_seeds(seed, tier):
                 R.fail("seeds-changed-the-output", req)
             # model: same scenario (stdin seed comes first, as in clone_archive)
             all_seeds = ([stdin_seed] if stdin_seed is not None else []) + seeds
-            flags = ("s" if in_place else "") + ("b" if blockdev else "") + ("v" if verify else "") or "-"
+            flags = ("s" if in_place else "") + ("b" if blockdev else "") + ("v" if verify else "") + ("h" if use_http else "") or "-"
             mreq = "clone-rf %s - %s %s %s -" % (flags, hx(arch), hx(prior or b""), ",".join(hx(s) if s else "h" for s in all_seeds) or "-")
             # what was fetched: local = reads on the archive beyond the header; http = Range log
             a = pyfmt.parse_archive(arch)
             hs = a["header_size"]
+            wire = None
             if use_http:
-                fetched = [r for r in srv.log if r is not None][2:]
+                wire = [r for r in srv.log if r is not None]
+                fetched = wire[2:]
                 srv.close()
             else:
                 fetched = [r for r in _strace_reads(log, apath) if r[0] >= hs]
@@ -1269,8 +1390,13 @@ def c02_seeds(seed, tier):
             fetched = split_at(merge_ranges(fetched), cuts)
             if len(arch) + len(prior or b"") + sum(len(s) for s in all_seeds) <= 14000 and all(len(s) > 0 for s in all_seeds):
                 R.case(mreq, None)   # answer filled below
-                R.cases[-1] = (mreq, "result=%s out=%s fetch=%s" % (cls if cls in ("ok", "panic") else "err", digest(got or b""),
-                                                                    ",".join("%d:%d" % r for r in fetched) or "-"))
+                # over HTTP also the range requests as sent, in order (C07 for a whole clone: header, rest of
+                # the header, one request per maximal run of adjacent missing chunks)
+                R.cases[-1] = (mreq, "result=%s out=%s fetch=%s%s" % (cls if cls in ("ok", "panic") else "err", digest(got or b""),
+                                                                      ",".join("%d:%d" % r for r in fetched) or "-",
+                                                                      "" if wire is None else " wire=" + ",".join("%d:%d" % r for r in wire)))
+                if wire is not None:
+                    R.stat("http_clones_with_the_wire_compared")
             # direct C06 oracle: no chunk present in a seed / the prior output is fetched; each range once
             if len(set(fetched)) != len(fetched):
                 R.fail("a-chunk-was-fetched-twice", req)
